@@ -240,7 +240,7 @@ theorem nodeOfPriv_ok_iff (c : CurveT) (s : Scheme) (k : Bytes) (d i : Nat) (cc 
 
 theorem nodeOfPriv_error (c : CurveT) (s : Scheme) (k : Bytes) (d i : Nat) (cc fp : Bytes) (e : Err)
     (h : nodeOfPriv c s k d i cc fp = .error e) :
-    (e = .key ∧ privValid c k = false) ∨ (e = .thirdParty ∧ privValid c k = true ∧ pubOfPriv c k = none) := by
+    (e = .key ∧ privValid c k = false) ∨ (e = .value ∧ privValid c k = true ∧ pubOfPriv c k = none) := by
   unfold nodeOfPriv at h
   cases hv : privValid c k
   · simp [hv, throw, throwThe, MonadExceptOf.throw] at h; exact Or.inl ⟨h.symm, rfl⟩
@@ -278,26 +278,68 @@ theorem slip10ChildKey_range (nd : Node) (idx : Nat) (h : 2 ^ 32 ≤ idx) :
   have : idx > 2 ^ 32 - 1 := by omega
   simp only [this, if_true, bind, Except.bind, throw, throwThe, MonadExceptOf.throw]
 
+/-- the depth guard of `ChildKey` (`Bip32Depth.Increase()` on a one-byte depth) as a plain `if` -/
+theorem Slip10.guard_ok_iff {α} (d : Nat) (k : R α) (a : α) :
+    (if d ≥ 255 then (.error .value : R α) else k) = .ok a ↔ d < 255 ∧ k = .ok a := by
+  split
+  · next h => exact ⟨fun e => (by cases e), fun ⟨h', _⟩ => absurd h (Nat.not_le.mpr h')⟩
+  · next h => exact ⟨fun e => ⟨Nat.not_le.mp h, e⟩, fun ⟨_, e⟩ => e⟩
+
+theorem Slip10.guard_error_iff {α} (d : Nat) (k : R α) (e : Err) :
+    (if d ≥ 255 then (.error .value : R α) else k) = .error e ↔
+      (255 ≤ d ∧ e = .value) ∨ (d < 255 ∧ k = .error e) := by
+  split
+  · next h =>
+    exact ⟨fun h' => (by cases h'; exact Or.inl ⟨h, rfl⟩),
+      fun h' => h'.elim (fun ⟨_, h2⟩ => by rw [h2]) (fun ⟨h1, _⟩ => absurd h (Nat.not_le.mpr h1))⟩
+  · next h =>
+    exact ⟨fun h' => Or.inr ⟨Nat.not_le.mp h, h'⟩,
+      fun h' => h'.elim (fun ⟨h1, _⟩ => absurd h1 h) (fun ⟨_, h2⟩ => h2)⟩
+
 theorem slip10ChildKey_priv (nd : Node) (idx : Nat) (priv : Bytes) (hi : idx < 2 ^ 32)
     (hp : nd.priv = some priv) :
     slip10ChildKey nd idx =
       (slip10CkdPriv nd priv idx >>= fun x =>
-        nodeOfPriv nd.curve nd.scheme x.1 (nd.depth + 1) idx x.2 nd.fingerprint) := by
+        if nd.depth ≥ 255 then .error .value
+        else nodeOfPriv nd.curve nd.scheme x.1 (nd.depth + 1) idx x.2 nd.fingerprint) := by
   unfold slip10ChildKey
   have : ¬ idx > 2 ^ 32 - 1 := by omega
   simp only [this, if_false, hp, bind, Except.bind]
+  cases slip10CkdPriv nd priv idx with
+  | error e => rfl
+  | ok x => simp only []; split <;> rfl
 
 theorem slip10ChildKey_pub (nd : Node) (idx : Nat) (hi : idx < 2 ^ 32)
     (hp : nd.priv = none) (hh : isHardened idx = false) :
     slip10ChildKey nd idx =
       (slip10CkdPub nd idx >>= fun x =>
-        nodeOfPub nd.curve nd.scheme x.1 (nd.depth + 1) idx x.2 nd.fingerprint) := by
+        if nd.depth ≥ 255 then .error .value
+        else nodeOfPub nd.curve nd.scheme x.1 (nd.depth + 1) idx x.2 nd.fingerprint) := by
   unfold slip10ChildKey
   have : ¬ idx > 2 ^ 32 - 1 := by omega
   simp only [this, if_false, hp, hh, bind, Except.bind]
-  cases slip10CkdPub nd idx <;> rfl
+  cases slip10CkdPub nd idx with
+  | error e => rfl
+  | ok x => simp only [Bool.false_eq_true, if_false]; split <;> rfl
 
-theorem slip10ChildKey_pub_hardened (nd : Node) (idx : Nat) (hi : idx < 2 ^ 32)
+/-- below the depth limit the guard disappears (the pre-guard form of `slip10ChildKey_priv`) -/
+theorem slip10ChildKey_priv_of_depth_lt (nd : Node) (idx : Nat) (priv : Bytes) (hi : idx < 2 ^ 32)
+    (hp : nd.priv = some priv) (hd : nd.depth < 255) :
+    slip10ChildKey nd idx =
+      (slip10CkdPriv nd priv idx >>= fun x =>
+        nodeOfPriv nd.curve nd.scheme x.1 (nd.depth + 1) idx x.2 nd.fingerprint) := by
+  rw [slip10ChildKey_priv nd idx priv hi hp]
+  simp only [ge_iff_le, Nat.not_le.mpr hd, if_false]
+
+theorem slip10ChildKey_pub_of_depth_lt (nd : Node) (idx : Nat) (hi : idx < 2 ^ 32)
+    (hp : nd.priv = none) (hh : isHardened idx = false) (hd : nd.depth < 255) :
+    slip10ChildKey nd idx =
+      (slip10CkdPub nd idx >>= fun x =>
+        nodeOfPub nd.curve nd.scheme x.1 (nd.depth + 1) idx x.2 nd.fingerprint) := by
+  rw [slip10ChildKey_pub nd idx hi hp hh]
+  simp only [ge_iff_le, Nat.not_le.mpr hd, if_false]
+
+theorem slip10ChildKey_pub_hard (nd : Node) (idx : Nat) (hi : idx < 2 ^ 32)
     (hp : nd.priv = none) (hh : isHardened idx = true) :
     slip10ChildKey nd idx = .error .key := by
   unfold slip10ChildKey
@@ -330,15 +372,61 @@ theorem child_metadata (nd : Node) (idx : Nat) (c : Node) (h : slip10ChildKey nd
   | some priv =>
     rw [slip10ChildKey_priv nd idx priv hi hp, Slip10.bind_ok_iff] at h
     obtain ⟨x, _, hx⟩ := h
+    obtain ⟨_, hx⟩ := (Slip10.guard_ok_iff ..).mp hx
     obtain ⟨_, pub, _, rfl⟩ := (nodeOfPriv_ok_iff ..).mp hx
     exact ⟨rfl, rfl, hi, rfl, rfl, rfl, rfl⟩
   | none =>
     cases hh : isHardened idx
     · rw [slip10ChildKey_pub nd idx hi hp hh, Slip10.bind_ok_iff] at h
       obtain ⟨x, _, hx⟩ := h
+      obtain ⟨_, hx⟩ := (Slip10.guard_ok_iff ..).mp hx
       obtain ⟨pub, _, rfl⟩ := (nodeOfPub_ok_iff ..).mp hx
       exact ⟨rfl, rfl, hi, rfl, rfl, rfl, rfl⟩
-    · rw [slip10ChildKey_pub_hardened nd idx hi hp hh] at h; cases h
+    · rw [slip10ChildKey_pub_hard nd idx hi hp hh] at h; cases h
+
+/-! ### the depth limit (`Bip32Depth.Increase()`: the depth is one byte) -/
+
+/-- a successful `ChildKey` call was made on a node of depth `< 255` … -/
+theorem slip10ChildKey_depth_lt (nd : Node) (idx : Nat) (c : Node) (h : slip10ChildKey nd idx = .ok c) :
+    nd.depth < 255 := by
+  have hi := slip10ChildKey_idx_lt nd idx c h
+  cases hp : nd.priv with
+  | some priv =>
+    rw [slip10ChildKey_priv nd idx priv hi hp, Slip10.bind_ok_iff] at h
+    obtain ⟨x, _, hx⟩ := h
+    exact ((Slip10.guard_ok_iff ..).mp hx).1
+  | none =>
+    cases hh : isHardened idx
+    · rw [slip10ChildKey_pub nd idx hi hp hh, Slip10.bind_ok_iff] at h
+      obtain ⟨x, _, hx⟩ := h
+      exact ((Slip10.guard_ok_iff ..).mp hx).1
+    · rw [slip10ChildKey_pub_hard nd idx hi hp hh] at h; cases h
+
+/-- … so a node of depth 255 (or more) has no child at all -/
+theorem slip10ChildKey_depth_limit (nd : Node) (idx : Nat) (hd : 255 ≤ nd.depth) :
+    ∃ e, slip10ChildKey nd idx = .error e := by
+  cases h : slip10ChildKey nd idx with
+  | error e => exact ⟨e, rfl⟩
+  | ok c => exact absurd (slip10ChildKey_depth_lt nd idx c h) (Nat.not_lt.mpr hd)
+
+/-- the depth of a child fits one byte -/
+theorem slip10ChildKey_depth_le (nd : Node) (idx : Nat) (c : Node) (h : slip10ChildKey nd idx = .ok c) :
+    c.depth ≤ 255 := by
+  have h1 := slip10ChildKey_depth_lt nd idx c h
+  have h2 := (child_metadata nd idx c h).1
+  omega
+
+/-- at the depth limit, a private derivation whose key computation succeeds raises `ValueError` -/
+theorem slip10ChildKey_priv_depth_value (nd : Node) (idx : Nat) (priv : Bytes) (x : Bytes × Bytes)
+    (hi : idx < 2 ^ 32) (hp : nd.priv = some priv) (hd : 255 ≤ nd.depth)
+    (hx : slip10CkdPriv nd priv idx = .ok x) : slip10ChildKey nd idx = .error .value := by
+  rw [slip10ChildKey_priv nd idx priv hi hp, hx, Slip10.bind_ok, if_pos hd]
+
+/-- the same on the public side -/
+theorem slip10ChildKey_pub_depth_value (nd : Node) (idx : Nat) (x : Bytes × Bytes)
+    (hi : idx < 2 ^ 32) (hp : nd.priv = none) (hh : isHardened idx = false) (hd : 255 ≤ nd.depth)
+    (hx : slip10CkdPub nd idx = .ok x) : slip10ChildKey nd idx = .error .value := by
+  rw [slip10ChildKey_pub nd idx hi hp hh, hx, Slip10.bind_ok, if_pos hd]
 
 theorem Slip10.hash160_length (b : Bytes) : (hash160 b).length = 20 := ripemd160_length _
 
@@ -359,7 +447,7 @@ theorem ed25519_soft_refused (nd : Node) (priv : Bytes) (idx : Nat) (hc : nd.cur
 
 theorem public_hardened_refused (nd : Node) (idx : Nat) (hp : nd.priv = none)
     (hh : isHardened idx = true) (hi : idx < 2 ^ 32) : slip10ChildKey nd idx = .error .key :=
-  slip10ChildKey_pub_hardened nd idx hi hp hh
+  slip10ChildKey_pub_hard nd idx hi hp hh
 
 theorem slip10CkdPub_ed (nd : Node) (idx : Nat) (hc : nd.curve.isEcdsa = false) :
     slip10CkdPub nd idx = .error .key := by
@@ -369,7 +457,7 @@ theorem ed25519_public_refused (nd : Node) (idx : Nat) (hc : nd.curve.isEcdsa = 
     (hp : nd.priv = none) (hi : idx < 2 ^ 32) : slip10ChildKey nd idx = .error .key := by
   cases hh : isHardened idx
   · rw [slip10ChildKey_pub nd idx hi hp hh, slip10CkdPub_ed nd idx hc]; rfl
-  · exact slip10ChildKey_pub_hardened nd idx hi hp hh
+  · exact slip10ChildKey_pub_hard nd idx hi hp hh
 
 theorem neuter_has_no_private (nd : Node) : nd.neuter.priv = none := rfl
 
@@ -481,23 +569,58 @@ theorem slip10Master_eq (c : CurveT) (seed : Bytes) :
   · rfl
   · simp only [bind, Except.bind]
 
-/-- **A.5** `Bip32Slip10*.FromSeed` raises `ValueError` exactly for seeds shorter than 16 bytes -/
+/-- **A.5** `Bip32Slip10*.FromSeed` raises `ValueError` for seeds shorter than 16 bytes, and
+otherwise only when the key layer refuses to compute the public key of the (valid) master key -/
 theorem master_spec (c : CurveT) (seed : Bytes) :
-    slip10Master c seed = .error .value ↔ seed.length < 16 := by
+    slip10Master c seed = .error .value ↔
+      seed.length < 16 ∨
+        (16 ≤ seed.length ∧ ∃ k cc, slip10MasterLoop c 4096 seed = .ok (k, cc) ∧ pubOfPriv c k = none) := by
   rw [slip10Master_eq]
   split
   · next h => simp [h]
   · next h =>
-    simp only [h, iff_false]
-    intro he
-    rcases (Slip10.bind_error_iff _ _ _).mp he with h1 | ⟨x, _, h2⟩
-    · have := ((slip10MasterLoop_error_iff ..).mp h1).1; cases this
-    · rcases nodeOfPriv_error _ _ _ _ _ _ _ _ h2 with ⟨h3, _⟩ | ⟨h3, _⟩ <;> cases h3
+    constructor
+    · intro he
+      refine Or.inr ⟨Nat.le_of_not_lt h, ?_⟩
+      rcases (Slip10.bind_error_iff _ _ _).mp he with h1 | ⟨⟨k, cc⟩, hx, h2⟩
+      · have := ((slip10MasterLoop_error_iff ..).mp h1).1; cases this
+      · rcases nodeOfPriv_error _ _ _ _ _ _ _ _ h2 with ⟨h3, _⟩ | ⟨_, _, h4⟩
+        · cases h3
+        · exact ⟨k, cc, hx, h4⟩
+    · rintro (hl | ⟨_, k, cc, hx, hnone⟩)
+      · exact absurd hl h
+      · rw [hx, Slip10.bind_ok]
+        obtain ⟨j, _, _, hv, hk, _⟩ := (slip10MasterLoop_ok_iff ..).mp hx
+        rw [mstValid_eq, ← hk] at hv
+        unfold nodeOfPriv
+        simp only [hv, hnone, Bool.not_true, Bool.false_eq_true, if_false]
+        rfl
+
+/-- when the key layer computes a public key for every valid private key (true of the SLIP-0010
+ed25519 classes by definition, and of the ECDSA curves by the group law): `ValueError` exactly for
+seeds shorter than 16 bytes -/
+theorem master_spec_of_total (c : CurveT) (seed : Bytes)
+    (htot : ∀ k, privValid c k = true → pubOfPriv c k ≠ none) :
+    slip10Master c seed = .error .value ↔ seed.length < 16 := by
+  rw [master_spec]
+  constructor
+  · rintro (hl | ⟨_, k, cc, hx, hnone⟩)
+    · exact hl
+    · obtain ⟨j, _, _, hv, hk, _⟩ := (slip10MasterLoop_ok_iff ..).mp hx
+      rw [mstValid_eq, ← hk] at hv
+      exact absurd hnone (htot k hv)
+  · exact Or.inl
+
+theorem master_spec_ed (c : CurveT) (hc : c = .ed25519 ∨ c = .ed25519Blake2b) (seed : Bytes) :
+    slip10Master c seed = .error .value ↔ seed.length < 16 := by
+  apply master_spec_of_total
+  intro k _
+  rcases hc with rfl | rfl <;> simp [pubOfPriv]
 
 /-- all error classes of master key generation; `.key` is impossible because the loop already
-tested validity -/
+tested validity (the second `.value` is the key layer refusing a degenerate public key) -/
 theorem master_errors (c : CurveT) (seed : Bytes) (e : Err) (h : slip10Master c seed = .error e) :
-    (e = .value ∧ seed.length < 16) ∨ (16 ≤ seed.length ∧ (e = .fuel ∨ e = .thirdParty)) := by
+    (e = .value ∧ seed.length < 16) ∨ (16 ≤ seed.length ∧ (e = .fuel ∨ e = .value)) := by
   rw [slip10Master_eq] at h
   split at h
   · next hl => cases h; exact Or.inl ⟨rfl, hl⟩
@@ -557,6 +680,19 @@ theorem foldlM_depth (child : Node → Nat → R Node)
     obtain ⟨b, hb, ht⟩ := h
     rw [ih b ht, hchild nd a b hb, List.length_cons]; omega
 
+/-- if every child has a depth `≤ 255`, so has every node reached by a fold of `child` from a node
+of depth `≤ 255` -/
+theorem foldlM_depth_le (child : Node → Nat → R Node)
+    (hchild : ∀ nd i c, child nd i = .ok c → c.depth ≤ 255)
+    (l : List Nat) (nd c : Node) (hd : nd.depth ≤ 255) (h : l.foldlM child nd = .ok c) :
+    c.depth ≤ 255 := by
+  induction l generalizing nd with
+  | nil => simp only [List.foldlM_nil, pure, Except.pure] at h; cases h; exact hd
+  | cons a t ih =>
+    rw [List.foldlM_cons, Slip10.bind_ok_iff] at h
+    obtain ⟨b, hb, ht⟩ := h
+    exact ih b (hchild nd a b hb) ht
+
 theorem derivePathWith_eq (child : Node → Nat → R Node) (nd : Node) (p : Path) :
     derivePathWith child nd p =
       if (nd.depth > 0 && p.absolute) = true then .error .value else p.elems.foldlM child nd := by
@@ -571,6 +707,23 @@ theorem derive_depth (nd : Node) (p : Path) (c : Node) (h : derivePathWith slip1
   · cases h
   · exact foldlM_depth _ (fun nd i c hc => (child_metadata nd i c hc).1) _ _ _ h
 
+
+/-- the depth of every node `DerivePath` returns fits one byte, for any `child` function whose
+children do -/
+theorem derivePathWith_depth_le (child : Node → Nat → R Node)
+    (hchild : ∀ nd i c, child nd i = .ok c → c.depth ≤ 255)
+    (nd : Node) (p : Path) (c : Node) (hd : nd.depth ≤ 255) (h : derivePathWith child nd p = .ok c) :
+    c.depth ≤ 255 := by
+  rw [derivePathWith_eq] at h
+  split at h
+  · cases h
+  · exact foldlM_depth_le child hchild _ _ _ hd h
+
+/-- a path that would lead beyond depth 255 cannot be derived -/
+theorem derive_depth_bound (nd : Node) (p : Path) (c : Node) (hd : nd.depth ≤ 255)
+    (h : derivePathWith slip10ChildKey nd p = .ok c) : nd.depth + p.elems.length ≤ 255 := by
+  rw [← derive_depth nd p c h]
+  exact derivePathWith_depth_le _ slip10ChildKey_depth_le nd p c hd h
 
 /-! ## Part B — public/private commutation (ECDSA curves) -/
 
@@ -702,7 +855,7 @@ theorem slip10ChildKey_sound (nd : Node) (idx : Nat) (c : Node) (hp : nd.priv.is
   | some k =>
     rw [slip10ChildKey_priv nd idx k hi hk, Slip10.bind_ok_iff] at h
     obtain ⟨x, _, hx⟩ := h
-    exact nodeOfPriv_sound _ _ _ _ _ _ _ _ hx
+    exact nodeOfPriv_sound _ _ _ _ _ _ _ _ ((Slip10.guard_ok_iff ..).mp hx).2
 
 theorem master_sound (c : CurveT) (seed : Bytes) (nd : Node) (h : slip10Master c seed = .ok nd) :
     nd.Sound := by
@@ -767,6 +920,9 @@ theorem ckdPub_comm (nd : Node) (law : EcdsaLaw nd.curve) (idx : Nat)
           | none => Except.error Err.key) >>= _ = _
     rw [hadd]
     simp only [Slip10.bind_ok]
+    show (if nd.depth ≥ 255 then _ else _) = Except.map Node.neuter (if nd.depth ≥ 255 then _ else _)
+    split
+    · rfl
     unfold nodeOfPub nodeOfPriv
     rw [hcanon, hv', hP']
     rfl
@@ -785,7 +941,9 @@ theorem ckdPriv_never_key (nd : Node) (k : Bytes) (idx : Nat) (hc : nd.curve.isE
   rw [slip10ChildKey_priv nd idx k hi hp] at h
   rcases (Slip10.bind_error_iff _ _ _).mp h with h1 | ⟨⟨k', cc⟩, hx, h2⟩
   · have := slip10CkdPriv_ecdsa_error nd k idx hc _ h1; cases this
-  · rcases nodeOfPriv_error _ _ _ _ _ _ _ _ h2 with ⟨_, h4⟩ | ⟨h3, _⟩
+  · rcases (Slip10.guard_error_iff ..).mp h2 with ⟨_, h3⟩ | ⟨_, h2⟩
+    · cases h3
+    rcases nodeOfPriv_error _ _ _ _ _ _ _ _ h2 with ⟨_, h4⟩ | ⟨h3, _⟩
     · rw [(ckdPriv_key_valid nd k idx hc k' cc hx).1] at h4; cases h4
     · cases h3
 
